@@ -37,7 +37,9 @@ coordinate of the volumes of the cross-sections, clipped at the reference.
   (`C12_recorder_in_quantifier`), the value it computes is the specified one for 1–5 objectives
   (`C12_recorder_code`), the hypervolume is monotone in the reference (`C12_ref_monotone`), hence the
   value reported along ANY stream of jobs — failures included, any length — never decreases
-  (`C12_recorder_monotone`); a failure records nothing (`C12_recorder_failure`); the early-stopping
+  (`C12_recorder_monotone`); a failure records nothing (`C12_recorder_failure`); a reference point kept
+  incrementally by exact componentwise maxima is the worst point of the history
+  (`C12_recorder_incremental_ref`, `C12_recorder_ref_step`); the early-stopping
   counter restarts on every strict improvement and the search stops only after `patience`
   non-improving jobs (`C12_stopper_improving`, `C12_stopper_patience`).
 
@@ -393,6 +395,22 @@ theorem C12_recorder_monotone (m : Nat) (st : List Vec) (jobs : List (Option Vec
     (∀ x ∈ recRun st jobs, leVal (recValue st) x) ∧ (recRun st jobs).Pairwise leVal :=
   ⟨recRun_lower jobs st hst hj, recRun_pairwise jobs st hst hj⟩
 
+/-- **C12 (recorder: the reference point may be kept incrementally — by exact maxima).**  Along every
+stream of jobs (failures anywhere, rows of any numeric kind: the model knows only their values) the
+reference point maintained by one componentwise maximum per recorded job (`refRun`) is the componentwise
+worst point of the whole history (`refOf` = `np.max(-objectives, axis=0)`), starting from any history.  So an
+implementation that keeps the reference in a buffer reports the specified value exactly when the buffer
+holds the exact maximum — not when its element type rounds or truncates what is stored. -/
+theorem C12_recorder_incremental_ref (st : List Vec) (jobs : List (Option Vec)) :
+    refRun (refOf st) jobs = refOf (jobs.foldl recStep st) :=
+  refRun_eq jobs st
+
+/-- one step of it: the worst point after one more job is `max(old worst point, -objective)` -/
+theorem C12_recorder_ref_step (st : List Vec) (v : Vec) (hne : st ≠ []) :
+    worst (recPts (st ++ [v])) = vmax (worst (recPts st)) (negVec v) := by
+  rw [recPts_append]
+  exact worst_snoc (negVec v) (by simpa [recPts] using hne)
+
 /-- the evaluator the driver runs for a stream is the specification -/
 theorem C12_recorder_fast (st : List Vec) (jobs : List (Option Vec)) :
     recRunFast st jobs = recRun st jobs :=
@@ -492,6 +510,14 @@ example : recValueCode [[5, 0], [0, 5], [4, 4], [-3, 1], [1, -3], [-2, -2]] [0, 
 -- and a smaller value (so no recorded row may be dropped, however long the history)
 example : worst (recPts [[5, 0], [0, 5], [4, 4], [-3, 1], [1, -3], [-2, -2]]) = [3, 3] ∧
     recValue [[5, 0], [0, 5], [4, 4], [-2, -2]] = some 40 := by decide +kernel
+-- C12_recorder_incremental_ref / C12_recorder_ref_step: integer-valued first job, non-integral later ones, a failure in between
+example : refRun (refOf []) [some [1, 2], none, some [1/2, 5/2], some [3/4, 1/4]] = some [-1/2, -1/4] ∧
+    refOf ([some [1, 2], none, some [1/2, 5/2], some [3/4, 1/4]].foldl recStep []) = some [-1/2, -1/4] := by decide +kernel
+example : ([[1, 2]] : List Vec) ≠ [] ∧ vmax (worst (recPts [[1, 2]])) (negVec [1/2, 5/2]) = [-1/2, -2] := by decide +kernel
+-- regression (numeric kinds): history (1, 2), (0.5, 2.5).  The worst point is (-1/2, -2) and the value 0; with the
+-- reference kept in an integer buffer (-0.5 stored as 0) the reported number would be the hypervolume w.r.t. (0, -2) = 1/4
+example : recRun [] [some [1, 2], some [1/2, 5/2]] = [some 0, some 0] ∧
+    hv [0, -2] (recPts [[1, 2], [1/2, 5/2]]) = 1/4 := by decide +kernel
 -- hypotheses of C12_ref_monotone
 example : wdVec [2, 2] [3, 3] = true ∧ hv [2, 2] [[-4, -4], [-5, 0]] = 38 ∧ hv [3, 3] [[-4, -4], [-5, 0]] = 52 := by
   decide +kernel
